@@ -55,7 +55,8 @@ Definition card_eqb (a b : card) : bool :=
    written in the query, [voff] the offset used for evaluation (after the @
    adjustment of setOffsetForAtModifier), [vat] the resolved @ timestamp. *)
 Record vsel := mkVS {
-  vms : list matcher; vorig : Z; voff : Z; vat : option Z; vflt : option (list matcher) }.
+  vms : list matcher; vorig : Z; voff : Z; vat : option Z; vflt : option (list matcher);
+  vsyn : N }.   (* the selector's syntactic metric name (parser's Name field): 0 when written as a matcher *)
 
 Inductive expr :=
 | ENum (bits : Z)
